@@ -5,6 +5,7 @@ from concurrent.futures import ThreadPoolExecutor
 
 import vlib
 from vlib import clist
+from props import agent_lib
 
 SHARD = 2500
 OKST = (4, 5)          # finished, skipped
@@ -83,7 +84,7 @@ def monitor_run(c):
 
 
 def run(ctx, replay_cases=None):
-    ctx.proofs(extra=["Graph/RetryCheck.vo"])
+    ctx.proofs(extra=["Graph/RetryCheck.vo"] + list(agent_lib.EXTRA_VO))
     tool, out, _ = vlib.go_build("retry", ctx.scratch)
     if tool is None:
         ctx.fail("correspondence", "harness does not build against /repo", {"log": out[-2000:]})
@@ -135,10 +136,21 @@ def run(ctx, replay_cases=None):
                      "Params %r, retry sees %s" % (json.dumps(c["first"], sort_keys=True), c["recorded"], json.dumps(c["second"], sort_keys=True)),
                      c, cls={"class": "params-reuse"})
     nontrivial |= pdist
+    # ---- monitor: the retry is recorded as a new run and uses the steps of the recorded run (real agent) -------
+    acases = agent_lib.run_cases(ctx, ["retry"], tag="retry")
+    if acases is None:
+        ctx.fail("correspondence", "agent driver (harness/cmd/agentrun) does not build or run against /repo", {})
+        acases = []
+    for c in acases:
+        why = agent_lib.monitor_retry(c)
+        if why:
+            ctx.fail("monitor", "agent-level retry: " + why, c, cls={"class": "agent-retry", "sub": c.get("sub")})
+        nontrivial.add(json.dumps(["agent-retry", c.get("sub"), c.get("steps")]))
+    agent_lib.check_model(ctx, acases, tag="c10_agent")
     for c in reset_ok:
         if any(s in (2, 3) for s in c["st"]) and any(c["deps"]):
             nontrivial.add(json.dumps([c["deps"], c["st"]]))
-    ctx.cov["evaluations"] = len(cases)
+    ctx.cov["evaluations"] = len(cases) + len(acases)
     ctx.cov["traces_validated_against_impl"] = len(reset_ok) + len(runs)
     ctx.cov["distinct_nontrivial"] = len(nontrivial)
     ctx.cov["rule"] = ("reset stream: every acyclic digraph on <=3 nodes x every recorded status vector in {none,running,failed,"
@@ -149,10 +161,13 @@ def run(ctx, replay_cases=None):
                        "(executed set = unfinished part + downstream, others untouched, dependency order, termination); params "
                        "stream: dag.Load(file, given) -> recorded Params string (model.Params) -> dag.Load(file, recorded) in a "
                        "process whose environment changed meanwhile, values of $1..$n/$NAME compared (parameter values without "
-                       "spaces or quotes; those are C11's subject). "
+                       "spaces or quotes; those are C11's subject); agent stream: a real agent run (failed or stopped), the record read back, "
+                       "the definition changed on disk in 2 of 3 cases, then a real agent retry - the old history files must be "
+                       "byte-identical, exactly one new file with the new request id and the same Params, finished steps not re-executed, "
+                       "only steps of the record run. "
                        "non-trivial = at least one dependency edge and at least one recorded step that is not finished/skipped; "
                        "distinct by (graph, recorded vector, flags)")
-    ctx.cov["streams"] = {"reset": len(reset), "run": len(runs), "params": len(pcases)}
+    ctx.cov["streams"] = {"reset": len(reset), "run": len(runs), "params": len(pcases), "agent_retry": len(acases)}
     ctx.cov["run_classes"] = classes
     ctx.cov["exhaustive"] = False
     for c in reset_ok[300:301] + runs[:2] + pcases[:1]:
